@@ -5,6 +5,7 @@ import (
 	"fmt"
 	"math"
 	"math/big"
+	"strings"
 
 	"github.com/cockroachdb/apd/v3"
 
@@ -15,11 +16,11 @@ import (
 // C17: integer and float conversions and Modf are exact.
 
 type c17Case struct {
-	Kind string  `json:"kind"` // "int64", "ctor", "float", "modf"
-	X    *DecJ   `json:"x,omitempty"`
-	I    int64   `json:"i,omitempty"`
-	E    int32   `json:"e,omitempty"`
-	Mode int     `json:"mode,omitempty"`
+	Kind string `json:"kind"` // "int64", "ctor", "float", "modf"
+	X    *DecJ  `json:"x,omitempty"`
+	I    int64  `json:"i,omitempty"`
+	E    int32  `json:"e,omitempty"`
+	Mode int    `json:"mode,omitempty"`
 }
 
 var (
@@ -366,6 +367,11 @@ func c17FloatFamily(tier string) []Operand {
 			}
 		}
 	}
+	// coefficients far longer than any float64 needs (strconv keeps 800 mantissa digits on its slow path) at
+	// exponents that make the value subnormal, ordinary and tiny; a six-digit exponent
+	for _, le := range [][2]int{{800, -1110}, {801, -1111}, {1000, -1310}, {1000, -1000}, {2500, -2400}, {9800, -100000}, {100000, -100000}, {30, -100000}} {
+		out = append(out, FinBig(bigOf(strings.Repeat("7", le[0])), int32(le[1]), false), FinBig(bigOf("1"+strings.Repeat("0", le[0]-2)+"1"), int32(le[1]), true))
+	}
 	return out
 }
 
@@ -482,8 +488,8 @@ func init() {
 		Bounds: func(tier string) string {
 			return fmt.Sprintf("Int64 family %d values (incl. WORD: 2^62/2^63/2^64/10^18/10^19/10^20 +-2 at every exponent -40..3); constructors 2020 ints x 8 exponents x 4 constructors; Float64 family %d decimals (every %s binary exponent x mantissa patterns: exact value, +-1 in an extra digit, midpoint to the next float +-1, 17-19 digit perturbations, overflow/underflow thresholds); Modf: DENSE(3,6)+EDGE+WORD + exponents at the package limits and at the ends of int32 x 3 output modes", len(c17Int64Family(tier)), len(c17FloatFamily(tier)), map[bool]string{true: "8th", false: "64th"}[tier == "thorough"])
 		},
-		Run:    c17Run,
-		Replay: c17Replay,
+		Run:         c17Run,
+		Replay:      c17Replay,
 		Assumptions: []string{"big.Rat.Float64 (nearest, ties to even) is the reference for Float64"},
 	})
 }
